@@ -132,8 +132,8 @@ theorem mem_popKey_of_mem {lo hi : Nat} {ps : List Part} {p : Part} (h : p ∈ p
       · exact List.mem_cons_of_mem _ (ih h)
 
 /-- value specification of a `getitem`-like operation -/
-def GiSem (ρ : Val) (gi : Expr → Nat → Nat → R Expr) : Prop :=
-  ∀ x a b r, WF x → a < b → b ≤ x.size → gi x a b = .ok r → ideal ρ r = bitsOf (ideal ρ x) a (b - a)
+def GiSem (ρ : Val) (Q : Expr → Prop) (gi : Expr → Nat → Nat → R Expr) : Prop :=
+  ∀ x a b r, WF x → Q x → a < b → b ≤ x.size → gi x a b = .ok r → ideal ρ r = bitsOf (ideal ρ x) a (b - a)
 
 /-- members that `cut` does not list survive, as long as no listed part shares their key and their key is
     none of the piece keys -/
@@ -253,8 +253,9 @@ theorem testBit_bitsOf' (a p s j : Nat) : (bitsOf a p s).testBit j = (decide (j 
 
 /-- value of the table after `parts[(sta,sto)] = v; cut(sta,sto)`: bits `[sta,sto)` are those of `v`, every
     other bit keeps its value -/
-theorem setPart_sem (ρ : Val) (gi : Expr → Nat → Nat → R Expr) (hgi : GiSpec gi) (hgs : GiSem ρ gi)
-    (n sta sto : Nat) (v : Expr) (parts ps' : List Part) (hd : Disj n parts) (hw : ∀ p ∈ parts, WF p.2.2) (hv : WF v)
+theorem setPart_sem (ρ : Val) (Q : Expr → Prop) (gi : Expr → Nat → Nat → R Expr) (hgi : GiSpec gi) (hgs : GiSem ρ Q gi)
+    (n sta sto : Nat) (v : Expr) (parts ps' : List Part) (hd : Disj n parts) (hw : ∀ p ∈ parts, WF p.2.2)
+    (hq : ∀ p ∈ parts, Q p.2.2) (hv : WF v)
     (hvs : v.size = sto - sta) (hr : sta < sto) (hn : sto ≤ n)
     (h : setPart gi sta sto v parts = .ok ps') :
     ∀ j, tbit ρ ps' j = if sta ≤ j ∧ j < sto then (ideal ρ v).testBit (j - sta) else tbit ρ parts j := by
@@ -318,14 +319,14 @@ theorem setPart_sem (ρ : Val) (gi : Expr → Nat → Nat → R Expr) (hgi : GiS
             · obtain ⟨hdp, hg, hmem⟩ := hhead (by omega)
               rw [tbit_of_mem ρ hd' hmem ⟨hq1, hjl⟩]
               simp only
-              rw [hgs nv 0 (sta - lo) hdp (hw _ hqm) (by omega) (by omega) hg, testBit_bitsOf']
+              rw [hgs nv 0 (sta - lo) hdp (hw _ hqm) (hq _ hqm) (by omega) (by omega) hg, testBit_bitsOf']
               have : j - lo < sta - lo := by omega
               simp [this]
             · have hjs : sto ≤ j := by omega
               obtain ⟨tp, hg, hmem⟩ := htail (by omega)
               rw [tbit_of_mem ρ hd' hmem ⟨hjs, hq2⟩]
               simp only
-              rw [hgs nv (sto - lo) (hi - lo) tp (hw _ hqm) (by omega) (by omega) hg, testBit_bitsOf']
+              rw [hgs nv (sto - lo) (hi - lo) tp (hw _ hqm) (hq _ hqm) (by omega) (by omega) hg, testBit_bitsOf']
               have h1 : j - sto < hi - lo - (sto - lo) := by omega
               have h2 : sto - lo + (j - sto) = j - lo := by omega
               simp [h1, h2]
@@ -483,37 +484,40 @@ theorem restruct_sem (ρ : Val) (n : Nat) (ps : List Part) (hd : Disj n ps) (hw 
 /-! ### the `__getitem__` loop copies the covered bits -/
 
 /-- value specification of a `setitem`-like operation -/
-def SiSem (ρ : Val) (si : Expr → Nat → Nat → Expr → R Expr) : Prop :=
-  ∀ n sf ps a b v r, Disj n ps → (∀ p ∈ ps, WF p.2.2) → WF v → si (.comp n sf ps) a b v = .ok r →
-    ∃ ps', r = .comp n sf ps' ∧
+def SiSem (ρ : Val) (Q : Expr → Prop) (si : Expr → Nat → Nat → Expr → R Expr) : Prop :=
+  ∀ n sf ps a b v r, Disj n ps → (∀ p ∈ ps, WF p.2.2) → (∀ p ∈ ps, Q p.2.2) → WF v → Q v →
+    si (.comp n sf ps) a b v = .ok r →
+    ∃ ps', r = .comp n sf ps' ∧ (∀ p ∈ ps', Q p.2.2) ∧
       ∀ j, tbit ρ ps' j = if a ≤ j ∧ j < b then (ideal ρ v).testBit (j - a) else tbit ρ ps j
 
-theorem compGetLoop_sem (ρ : Val) (gi : Expr → Nat → Nat → R Expr) (si : Expr → Nat → Nat → Expr → R Expr)
-    (hgi : GiSpec gi) (hsi : SiSpec si) (hgs : GiSem ρ gi) (hss : SiSem ρ si) (size : Nat) (parts : List Part)
-    (ht : Tiles size parts) (hw : ∀ p ∈ parts, WF p.2.2) (stop l sta : Nat) (hstop : stop = sta + l)
-    (hle : stop ≤ size) (sf : Bool) :
+theorem compGetLoop_sem (ρ : Val) (Q : Expr → Prop) (gi : Expr → Nat → Nat → R Expr) (si : Expr → Nat → Nat → Expr → R Expr)
+    (hgi : GiSpec gi) (hsi : SiSpec si) (hgs : GiSem ρ Q gi) (hss : SiSem ρ Q si)
+    (hgq : ∀ x a b r, WF x → Q x → gi x a b = .ok r → Q r) (size : Nat) (parts : List Part)
+    (ht : Tiles size parts) (hw : ∀ p ∈ parts, WF p.2.2) (hq : ∀ p ∈ parts, Q p.2.2) (stop l sta : Nat)
+    (hstop : stop = sta + l) (hle : stop ≤ size) (sf : Bool) :
     ∀ (k b : Nat) (rps : List Part) (res : Expr), l - b ≤ k → b ≤ l → Disj l rps → (∀ p ∈ rps, WF p.2.2) →
+      (∀ p ∈ rps, Q p.2.2) →
       (∀ x, cnt x rps = if x < b then 1 else 0) →
       (∀ x, x < b → tbit ρ rps x = tbit ρ parts (sta + x)) →
       compGetLoop gi si parts stop l k b (sta + b) (.comp l sf rps) = .ok res →
-      ∃ rps', res = .comp l sf rps' ∧ ∀ x, x < l → tbit ρ rps' x = tbit ρ parts (sta + x) := by
+      ∃ rps', res = .comp l sf rps' ∧ (∀ p ∈ rps', Q p.2.2) ∧ ∀ x, x < l → tbit ρ rps' x = tbit ρ parts (sta + x) := by
   intro k
   induction k with
   | zero =>
-    intro b rps res hk hb hd hwr hc hv h
+    intro b rps res hk hb hd hwr hqr hc hv h
     simp only [compGetLoop] at h
     cases h
     have : b = l := by omega
     subst this
-    exact ⟨rps, rfl, hv⟩
+    exact ⟨rps, rfl, hqr, hv⟩
   | succ k ih =>
-    intro b rps res hk hb hd hwr hc hv h
+    intro b rps res hk hb hd hwr hqr hc hv h
     simp only [compGetLoop] at h
     split at h
     · cases h
       have : b = l := by omega
       subst this
-      exact ⟨rps, rfl, hv⟩
+      exact ⟨rps, rfl, hqr, hv⟩
     · rename_i hbl
       have hbl' : b < l := by omega
       have hcs : (cover (sta + b) parts).isSome := by
@@ -538,19 +542,20 @@ theorem compGetLoop_sem (ρ : Val) (gi : Expr → Nat → Nat → R Expr) (si : 
           rw [hg] at h
           simp only [bind, Except.bind] at h
           have hp := hgi s _ _ piece (hw _ hm) (by omega) (by omega) hg
-          have hpv := hgs s _ _ piece (hw _ hm) (by omega) (by omega) hg
+          have hpv := hgs s _ _ piece (hw _ hm) (hq _ hm) (by omega) (by omega) hg
+          have hpq := hgq s _ _ piece (hw _ hm) (hq _ hm) hg
           cases hsv : si (comp l sf rps) b (b + (min hi stop - lo - (sta + b - lo))) piece with
           | error e => rw [hsv] at h; cases h
           | ok res1 =>
             rw [hsv] at h
             simp only at h
             obtain ⟨rps1, rfl, hd1, hw1, hab, hbn, hc1⟩ := hsi l sf rps _ _ piece res1 hd hwr hp.1 hsv
-            obtain ⟨rps1', e1', hb1⟩ := hss l sf rps _ _ piece _ hd hwr hp.1 hsv
+            obtain ⟨rps1', e1', hq1, hb1⟩ := hss l sf rps _ _ piece _ hd hwr hqr hp.1 hpq hsv
             cases e1'
             have e : sta + b + (min hi stop - lo - (sta + b - lo)) = sta + (b + (min hi stop - lo - (sta + b - lo))) := by
               omega
             rw [e] at h
-            refine ih _ rps1 res (by omega) hbn hd1 hw1 ?_ ?_ h
+            refine ih _ rps1 res (by omega) hbn hd1 hw1 hq1 ?_ ?_ h
             · intro x
               rw [hc1 x, hc x]
               split_ifs <;> omega
